@@ -9,7 +9,74 @@ CLAIMS = {
         "text": "Unbounded proof, function by function, that evaluation never panics (overflow, shift range, division, column lookup under the stated precondition) and returns a value the statement allows, for all operand values and all expression trees (structural induction via decreases).",
         "note": "Trusted: derive(Clone/PartialEq/PartialOrd) semantics of Value (prelude value_derives.rs, guarded by a hash of the enum), String + &str concatenation shim, i32::wrapping_neg/wrapping_div specs, Table::index_for_column_name contract (body uses enumerate(); checked bounded by Kani). Not covered: the call sites of Expr::eval inside Select/Update/Delete/Join::exec (whether they establish the has-column precondition).",
     },
+    "C18": {
+        "technique": "Verus: exact arithmetic postconditions (spec functions T: time->ticks, B: ticks->time) on the extracted bodies of timestamp.rs, plus lemmas over T and B for resolution, idempotence, monotonicity and saturation; Kani complete harness for the 8-byte codec",
+        "text": "Unbounded proof that the four conversion functions compute T and B exactly (all u64 ticks, all SystemTime values of the platform range) without overflow or panic, and that T/B satisfy the four clauses of the statement.",
+        "note": "Trusted: std::time specs in prelude/time.rs (Duration::new/as_secs/subsec_nanos, SystemTime::duration_since/checked_add/checked_sub, SystemTimeError::duration, UNIX_EPOCH); SystemTime viewed as integer nanoseconds in an uninterpreted platform range containing 0; the 'within 100 ns' lemma assumes the platform range covers 1601..60056. Not covered: save/reopen beyond the 8-byte codec and the property-set entry (see C10).",
+    },
+    "C07": {
+        "technique": "Verus postcondition r == valid_spec(column, value) on the extracted body of Column::is_valid_value, valid_spec written from the statement; Category::validate as an uninterpreted predicate",
+        "text": "Unbounded proof that the value gate accepts exactly the values the statement calls valid (nullability, integer type ranges with the reserved minimum, declared range, string width in characters, enumeration membership, category predicate).",
+        "note": "Trusted: Category::validate == cat_ok (uninterpreted): the category grammars and their panic-freedom are NOT verified (closure-taking str adaptors, parse, Uuid::parse_str are outside both verifiers). Trusted std specs: Chars::count, <[T]>::contains with String equality = character-sequence equality, String::len. Not covered: that Insert/Update::exec call the gate for every value and check arity; Value::from(Uuid)/From<&[Language]>.",
+    },
+    "C11": {
+        "technique": "Verus: encode/decode proved equal to spec functions enc/dec written from the format description (loop invariants over the consumed prefix), is_valid proved equal to the statement's `accepted` predicate, and lemmas dec(enc(n)) == n, injectivity, no-special-name, stream-never-table over those specs; Kani complete harness for to_b64/from_b64",
+        "text": "Unbounded proof (names of any length) of the stream-name codec: accepted names never collide or alias, never encode to a table or reserved name, decode inverts encode, no panic.",
+        "note": "Trusted: Peekable<Chars> iterator-law axiom and next/peek specs, char classification specs, char::from_u32, str::starts_with(char), encode_utf16().count() shim (prelude chars.rs / strspec.rs); the cfb container treats an accepted encoded name as one root entry. Not covered: Streams::next filtering, read/write/remove_stream, remove_digital_signature, stream contents across reopen (cfb I/O).",
+    },
+    "C19": {
+        "technique": "Verus: format_with_precedence proved to emit exactly show(ast, p) (ghost mirror using the statement's ladder), and lemma_show_denotes proves by structural induction that show(ast, p) has a derivation in the ladder grammar (explicit derivation trees) of level >= p whose tree is ast; top-level Display contract = exists derivation",
+        "text": "Unbounded proof (all expression trees) that the printed text of an expression, read with the ladder's precedence and left associativity, denotes the original tree; operator spellings and every parenthesisation decision are covered.",
+        "note": "Trusted: Formatter instantiated with a segment-recording sink (X4); Value's Display emits one opaque literal segment; each emitted segment is lexed as written; derivations of the stratified grammar are unique (textbook). Not covered: Display of Select/Join/Insert/Update/Delete (query.rs), string literals needing escapes.",
+    },
+    "C14": {
+        "technique": "Kani complete harnesses: from_id/id inverse over all i32; encoding() pointer-equal to the encoding_rs static the identifier's documented name designates; Verus: from_id/id against the statement's identifier table",
+        "text": "Complete (all identifiers, all 26 pages) proof of identifier lookup/reverse lookup and of the code-page -> table wiring.",
+        "note": "Trusted: the encoding_rs tables are the Windows code pages and are lossless on representable characters (dependency data; the per-character law over all scalar values x 26 pages is NOT claimed); 28591 -> WINDOWS_1252 accepted. Not covered: the chunked encoder loop of CodePage::encode ('?' substitution across the 1024-byte refill) and decode.",
+    },
+    "C06": {
+        "technique": "Kani complete harness over every column definition (all usize widths, all flag combinations): storable definitions round-trip through Column::bitfield / ColumnBuilder::with_bitfield and fit the Int16 catalog cell; unstorable ones are exactly the widths > 255; category names round-trip",
+        "text": "Complete proof for the type word and category-name codec that a stored column definition reads back with the same type, width and flags, and that refusal (is_storable) hits only definitions the format cannot hold.",
+        "note": "Not covered: that create_table_with_name consults is_storable and writes bitfield(); the _Validation row construction and re-derivation in Package::open (ranges, ';'-joined enumerations, key annotations); all cfb code.",
+    },
+    "C17": {
+        "technique": "Kani complete harnesses over all 65,536 codes (tag() vs the table, with symbolic table indices as universal quantifiers), the well-known identifiers, and bounded harnesses calling from_tag on listed tags",
+        "text": "Complete proof for from_code/code/tag over every code; bounded check (listed tags only) for from_tag including the unknown-region clause.",
+        "note": "Trusted: std binary_search_by_key contract. from_tag is checked on a fixed list of tags only (one call costs CBMC 20-60 s): the full table and arbitrary tag strings are NOT covered; this part is labelled bounded and not counted as proved.",
+    },
+    "C10": {
+        "technique": "Verus: PropertySet set/set_codepage/get/remove/codepage and 29 SummaryInfo setters/getters/clearers against a map view (vstd BTreeMap model), code-page coherence incl. the signed 16-bit storage; Kani complete harnesses: bytes written by PropertyValue::write == encoded_size_including_padding for every value type with the code-page encoder replaced by arbitrary bytes",
+        "text": "Unbounded proof of the in-memory property map behaviour (any order of setters/clearers, frame: only the named property changes, code page = the one last set, creation time = T/B conversion), and complete proof of the per-value size/alignment/round-trip obligations the offsets rest on.",
+        "note": "Trusted: vstd BTreeMap model; Timestamp conversion contracts imported from group timestamp (proved there). Not covered: PropertySet::write/read over the real BTreeMap (bounded Kani harness, thorough tier only), arch/languages template split/merge, uuid, string setters' Into<String> conversion, save/reopen through cfb.",
+    },
+    "C01": {
+        "technique": "Kani complete harnesses for each encode/decode pair (cells, string references, type word, property values, timestamps, code-page ids) + Verus proof of the pool reference accounting (decref, get, ValueRef::create/remove with the 'no live empty string' invariant) + bounded Kani for pool stream header/entries and incref",
+        "text": "Proof that each codec pair the whole-history statement rests on is an identity on valid values (complete over value domains), and that the pool invariant needed for the pool stream to be an inverse pair holds. The whole-history statement itself is NOT decided.",
+        "note": "Not covered: finisher/flush/drop logic, crash points, Package::open's reconstruction, save/reopen idempotence, streams, row layout (bounded harness in thorough tier) -- all need the cfb container. Assumed: cfb stores stream bytes faithfully. Trusted: StringPool::incref contract in the Verus group (checked bounded by Kani, 2 slots).",
+    },
+    "C02": {
+        "technique": "Kani harnesses of each reader ALONE against a format specification written in the harness (cells, references, type word on every i32, pool header with long-ref bit and long-string escape, pool data, property values on arbitrary bytes); Verus proof of streamname::decode against the format's decoder",
+        "text": "Complete (value-domain) or bounded (stream length) proof that each reader decodes what the format says, independently of the library's writers.",
+        "note": "Not covered: the composition in Package::open, absent _Validation, row layout (thorough tier, bounded), PropertySet::read over BTreeMap (thorough), 'changes preserve untouched content'.",
+    },
+    "C08": {
+        "technique": "Kani complete harnesses of each writer against the format (offset-binary cells, reference widths incl. refusal above 16 bits, type mismatch is an error) + Verus proof of pool accounting: decref/create/remove adjust exactly one count, clear text at zero, leave other slots untouched, keep 'unused entries empty / no live empty string'",
+        "text": "Proof of writer-side format conformance per cell and of exact reference accounting at the pool API, for pools of any size (Verus) with incref bounded (Kani).",
+        "note": "Not covered: that Delete/Update::exec and drop_table release one reference per cell (read: drop_table does not -- out of reach), catalog tables, write_rows/write_pool stream layout beyond the bounded harnesses.",
+    },
+    "C09": {
+        "technique": "Panic-freedom as proof obligations: Kani harnesses feeding arbitrary bytes to each reader (no failing panic/overflow/index check), Verus safety obligations on get/refcount/decode/timestamp conversion",
+        "text": "Complete or bounded proof that the readers in reach return Ok or Err on every input and never panic.",
+        "note": "Not covered: Package::open's unwrap()s on catalog cells (read: a null _Tables.Name panics), decref/incref preconditions at exec call sites, the FFI expect, allocation failure for huge declared lengths (verifiers model allocation as succeeding), Table::read_rows, PropertySet::read (thorough tier).",
+    },
 }
 
 NOT_APPLICABLE = {
+    "C03": "The relational semantics live entirely in Insert/Update/Delete/Select::exec; their bodies (cfb I/O + closures + iterator adaptors + BTreeMap<Vec<Value>,_>) are rejected by Verus and unaffordable in CBMC, and rewriting them would be proving a model. Only leaf facts (Row indexing, C13) are in reach and do not decide the property.",
+    "C04": "'Nothing changed after an error' is an ordering property inside create_table_with_name, drop_table, the exec methods and the stream methods of Package; none can be constructed or parsed by either verifier; the frame ranges over the cfb container.",
+    "C05": "Uniqueness/order of stored keys is established by the BTreeMap in Insert::exec and broken (read) by Update::exec; both out of reach. The per-cell validity part is decided under C07.",
+    "C12": "Join semantics are the nested loops of Join::exec (iterator chains, Rc<Table> construction, recursive Select::exec over cfb); out of reach of both verifiers.",
+    "C15": "Fault propagation needs a failing medium under cfb::CompoundFile (Package cannot be built in Kani without executing cfb); the four serializers that could carry a flush obligation use constructs Verus rejects (enumerate) or are unaffordable in CBMC with real Table/BTreeMap values. Not decided in this revision.",
+    "C16": "Needs a write-counting medium under a real cfb::CompoundFile; Package cannot be built in Kani without executing cfb, and Verus has no view of the container.",
+    "C20": "The limits are enforced (or not) in create_table_with_name, Insert::exec and the slot search of incref -- out of reach or beyond affordable unwinding; the limit checks in reach (StringRef::write at 16 bits, column width <= 255) are proved under C08 / C06.",
 }
